@@ -160,8 +160,14 @@ def _one(rng, fam, mon, sigs, hist):
                     a, b = pick[0], pick[1]
                     guess[t][a], guess[t][b] = tm[b], tm[a]
                     wrong_keys[t] = {a, b}
+        frames_in = s.frames
+        if rng.random() < 0.3:
+            # the same frames, put into the dictionary in another order than their keys (the keys say which frame follows which)
+            order_ = [int(x) for x in rng.permutation(nfr)]
+            frames_in = {t_: s.frames[t_] for t_ in order_}
+            hist["frames-dict-out-of-order"] = hist.get("frames-dict-out-of-order", 0) + 1
         try:
-            solver = fs.ForSys(s.frames, cm=cm, initial_guess=guess if gmode != "none" else [])
+            solver = fs.ForSys(frames_in, cm=cm, initial_guess=guess if gmode != "none" else [])
         except Exception as exc:
             import traceback
             mon.fail("tracking-raises", "the correspondence can be built", exc=repr(exc)[:200], tb=traceback.format_exc()[-500:],
